@@ -172,3 +172,20 @@ def run(F, R):
         hooks = [c for b in fam for c in b.calls() if c.callee and re.search(r"extensions::\{impl#\d+\}::resolve$", c.callee)]
         R.check(bool(hooks), "R30.5", key + ":resolve_list-wraps-items-in-the-resolve-hook", fam[0].where() if fam else "-", "%d Extensions::resolve sites" % len(hooks),
                 "resolve_list does not call Extensions::resolve for its items")
+
+    R.rule("R30.6", "one extension set per request: each execute / execute_stream path creates its Extensions exactly once (create_extensions) and hands clones of "
+                    "that value to prepare_request and to the request hook — a second create_extensions would run the request hook on different instances than "
+                    "the rest of the lifecycle")
+    n6 = 0
+    for pat, key in ((r"^async_graphql::schema::\{impl#\d+\}::execute$", "static:execute"), (r"^async_graphql::dynamic::schema::\{impl#\d+\}::execute$", "dynamic:execute"),
+                     (r"^async_graphql::schema::\{impl#\d+\}::execute_stream_with_session_data$", "static:execute_stream"),
+                     (r"^async_graphql::dynamic::schema::\{impl#\d+\}::execute_stream_with_session_data$", "dynamic:execute_stream")):
+        tops = F.find(pat, kind="fn")
+        if not tops:
+            continue
+        fam = [x for t_ in tops for x in F.with_nested(t_)]
+        ce = [c for x in fam for c in x.calls() if c.callee and re.search(r"schema::\{impl#\d+\}::create_extensions$", c.callee)]
+        n6 += 1
+        R.check(len(ce) == 1, "R30.6", key + ":one-create_extensions", tops[0].where(), "create_extensions called once",
+                "%s calls create_extensions %d times: the hooks of one request run on different extension instances (per-request state such as the Analyzer's is lost)" % (key, len(ce)))
+    R.floor("R30.6", "execute paths", n6, 3)
